@@ -27,10 +27,14 @@ def scratch(with_tests=False):
     return base
 
 
+class PatchError(Exception):
+    pass
+
+
 def apply(base, patch):
     r = subprocess.run(['patch', '-p1', '--no-backup-if-mismatch', '-i', patch], cwd=base, capture_output=True, text=True)
     if r.returncode != 0:
-        raise SystemExit('patch does not apply: %s %s' % (r.stdout[-500:], r.stderr[-500:]))
+        raise PatchError('patch does not apply: %s %s' % (r.stdout[-500:], r.stderr[-500:]))
 
 
 def add(src, k, ident):
@@ -98,7 +102,10 @@ def main():
     if cmd == 'evalall':
         for ident in sorted(os.listdir(os.path.join(ROOT, 'benign'))):
             if os.path.exists(os.path.join(ROOT, 'benign', ident, 'meta.json')):
-                evaluate(ident)
+                try:
+                    evaluate(ident)
+                except PatchError as e:
+                    print('%-8s PATCH DOES NOT APPLY to the current tree: %s' % (ident, str(e)[:200]))
 
 
 main()
